@@ -3,7 +3,10 @@
 Consumer-schedule exploration (driver E3).  For every pipeline of 1..2 (thorough: 1..3) streaming
 elements of the alphabet, in the forms Sequence(*els).run(flow) and Source(flow_factory, *els)(), for
 every finite flow of n values and for an unbounded flow, for bare and (data, context) values, the
-real lena pipeline is executed once per consumer schedule
+real lena pipeline is executed once per consumer schedule (and, in the same way, every Slice of the
+Slice sweep - the complete product of the ways of writing its arguments, Slice(stop), Slice(start,
+stop), Slice(start, stop, step), with start and stop of every sign class and several magnitudes and
+every step - as a one-element pipeline)
 
     built (never run) | run() called, never iterated | take k results, stop and drop the iterator
     (every k from 0 to the number of results) | take all results and observe the end
@@ -46,6 +49,9 @@ RULE = ("every consumer schedule (built; run() called; take k and stop for every
         "lena objects; a schedule is non-trivial when the consumer took k >= 1 results and stopped "
         "while the reference demand need(k) is a finite number of source values (so at least one "
         "further pull or the observation of the end of the flow would be an observable excess); "
+        "the Slice sweep adds, as one-element pipelines, Slice(stop), Slice(start, stop) and "
+        "Slice(start, stop, step) for every start, stop and step of its bound (Slices that are already "
+        "elements of the alphabet are not run twice); "
         "schedules are distinct by construction of the enumeration; states are distinct "
         "(pipeline, form, flow, lifecycle stage, event trace) tuples")
 ASSUMPTIONS = [
@@ -53,6 +59,10 @@ ASSUMPTIONS = [
     "start,stop,step; negative stop; start with negative stop; negative start; both negative; negative "
     "start with positive stop; step > 1), Count, RunIf, Print, Context, UpdateContext, MakeFilename and "
     "Split (bufsize 1..3, copy_buf True/False) whose branches are explicit Sequences of such elements",
+    "Slice sweep (one-element pipelines only, forms seq and source in the quick tier): start in None, "
+    "0..2 (thorough 0..3), -1..-3; stop in None, 0..3 (thorough 0..3, 5), -1..-3; step absent, 2, 3 "
+    "(thorough also None, 1, 4); negative indices are at most 3 in magnitude, which the continuations "
+    "of the brute-force demand (up to 4 values) discriminate",
     "flows are fresh V(i) objects or (V(i), {'s': i}) pairs, n = 0..6 (thorough 0..7) values or unbounded; "
     "predicates look at the parity of i only; a pipeline that raises in the eager reference on a flow "
     "(Context on bare values) is skipped for that flow and counted",
@@ -116,27 +126,61 @@ EXTRA = [
 ]
 
 
+# The Slice sweep: the argument space of Slice as a complete product (every way of writing the
+# arguments x every sign class and several magnitudes of start and stop x every step), each Slice
+# being a one-element pipeline.  |negative index| <= 3 = M.H - 1 (the continuations of the
+# brute-force demand are up to M.H values long).
+SWEEP = {
+    "quick": dict(starts=(None, 0, 1, 2, -1, -2, -3), stops=(None, 0, 1, 2, 3, -1, -2, -3), steps=(2, 3),
+                  forms=("seq", "source")),
+    "thorough": dict(starts=(None, 0, 1, 2, 3, -1, -2, -3), stops=(None, 0, 1, 2, 3, 5, -1, -2, -3),
+                     steps=(None, 1, 2, 3, 4), forms=("seq", "seq-iterable", "source", "source-iter")),
+}
+
+
+def sweep_slices(tier, start):
+    """Argument lists of the Slice sweep whose start is *start*: Slice(start, stop) and
+    Slice(start, stop, step) for every stop and step; the one-argument way of writing, Slice(stop),
+    goes with start None."""
+    sw = SWEEP["thorough" if tier == "thorough" else "quick"]
+    out = []
+    if start is None:
+        out += [[stop] for stop in sw["stops"]]
+    out += [[start, stop] for stop in sw["stops"]]
+    out += [[start, stop, step] for stop in sw["stops"] for step in sw["steps"]]
+    return out
+
+
 def _dom(tier):
     if tier == "thorough":
         return dict(alphabet=BASE + EXTRA, maxlen=3, nmax=7, kinf=8, horizon=20,
-                    styles=("pair", "bare"), forms=("seq", "seq-iterable", "source", "source-iter"))
+                    styles=("pair", "bare"), forms=("seq", "seq-iterable", "source", "source-iter"),
+                    sweep=SWEEP["thorough"])
     return dict(alphabet=BASE, maxlen=2, nmax=6, kinf=6, horizon=16,
-                styles=("pair", "bare"), forms=("seq", "seq-iterable", "source", "source-iter"))
+                styles=("pair", "bare"), forms=("seq", "seq-iterable", "source", "source-iter"),
+                sweep=SWEEP["quick"])
 
 
 def describe(tier):
     d = _dom(tier)
+    sw = d["sweep"]
+    nsl = sum(len(sweep_slices(tier, s)) for s in sw["starts"])
     return ("%d element kinds; pipelines of 1..%d elements; forms %s; flows of 0..%d values and an "
             "unbounded flow (results determined by its first %d values, at most %d taken); values %s; "
-            "schedules: built, run, take k for every k, take all and observe the end"
+            "schedules: built, run, take k for every k, take all and observe the end; "
+            "Slice sweep: %d Slices as one-element pipelines = Slice(stop), Slice(start, stop), "
+            "Slice(start, stop, step) for start in %s, stop in %s, step in %s, forms %s, same flows, "
+            "values and schedules"
             % (len(d["alphabet"]), d["maxlen"], "/".join(d["forms"]), d["nmax"], d["horizon"],
-               d["kinf"], "/".join(d["styles"])))
+               d["kinf"], "/".join(d["styles"]), nsl, list(sw["starts"]), list(sw["stops"]),
+               list(sw["steps"]), "/".join(sw["forms"])))
 
 
 def shards(tier):
     d = _dom(tier)
     na = len(d["alphabet"])
     out = [{"bound": "len1", "len": 1}]
+    out += [{"bound": "slice-sweep", "sweep": "slice", "start": s} for s in d["sweep"]["starts"]]
     if d["maxlen"] >= 2:
         out += [{"bound": "len2", "len": 2, "first": i} for i in range(na)]
     if d["maxlen"] >= 3:
@@ -460,8 +504,11 @@ def _judge_schedule(res, ctx, case, pipeline, form, n, style, dom, stage, k, lim
                         break
 
 
-def _pipelines(p, dom):
+def _pipelines(p, dom, tier):
     al = dom["alphabet"]
+    if p.get("sweep") == "slice":
+        # Slices that are elements of the alphabet are run by the shard len1 (in every form)
+        return [[["slice", a]] for a in sweep_slices(tier, p["start"]) if ["slice", a] not in al]
     if p["len"] == 1:
         return [[a] for a in al]
     if p["len"] == 2:
@@ -476,9 +523,10 @@ def run_shard(p, tier):
     old = sys.stdout
     sys.stdout = M.SINK
     try:
-        for pipeline in _pipelines(p, dom):
+        forms = dom["sweep"]["forms"] if p.get("sweep") else dom["forms"]
+        for pipeline in _pipelines(p, dom, tier):
             for style in dom["styles"]:
-                for form in dom["forms"]:
+                for form in forms:
                     for n in list(range(dom["nmax"] + 1)) + [None]:
                         judge_combo(res, ctx, pipeline, form, n, style, dom)
     finally:
@@ -508,7 +556,9 @@ LEVEL_TEXT = ("explicit-state exploration of consumer schedules: every pipeline 
               "elements over 21 (33) streaming element kinds x 2 forms x 2 value styles x flows of 0..6 (0..7) "
               "values and an unbounded flow is executed on the real lena code once per consumer schedule "
               "(built, run() called, take k and stop for every k, observe the end) and its pull/call/yield "
-              "event trace is compared with the demand computed by a brute-force determinacy model")
+              "event trace is compared with the demand computed by a brute-force determinacy model; in addition the "
+              "argument space of Slice (3 ways of writing x 7 (8) starts x 8 (9) stops x 3 (6) steps, all sign "
+              "classes) is swept as one-element pipelines under the same flows and schedules")
 LEVEL_NOTE = ("holds for the enumerated alphabet and bounds only; the demand of a pipeline is the composition "
               "of per-element semantic demands; pulls made while finding the end of the results are bounded only "
               "behind non-negative Slices; liveness counts original source objects with one in flight per element")
